@@ -84,12 +84,21 @@ def main():
       }],
       'checks': checks,
       'not_applicable': na,
-      'notes': ('Family: static analysis only. Every check exits 2 with an '
-                'ANALYSIS-ERROR line (never a VIOLATION) when an anchor '
-                'vanishes or a construct is unsupported. Known findings are in '
-                'known_findings.json; fixed defects are recorded there with '
-                'their fix: commits. See DESIGN.md for what each rule decides '
-                'and its blind spots.'),
+      'notes': ('Family: static analysis only (nothing under /repo is imported '
+                'or executed). Every check parses the current tree, brings it '
+                'to an analysis normal form (private renames undone against '
+                'sa/reference.json, private helpers that are not rule anchors '
+                'inlined, canonical statement shapes) and evaluates its rules. '
+                'A construct a rule expects and does not find is reported as a '
+                'VIOLATION naming the function and construct (exit 1); an '
+                'anchored function that vanished or an internal failure of a '
+                'rule is an ANALYSIS-ERROR (exit 2), never a silent pass. Known '
+                'findings are in known_findings.json; fixed defects are '
+                'recorded there with their fix: commits. The thorough tier adds '
+                'the self-validation of the checker (hand variants, 160 kept '
+                'seeded changes, 150 kept behaviour-preserving refactorings, '
+                'mutation and equivalence sweeps). See DESIGN.md for what each '
+                'rule decides and its blind spots.'),
   }
   with open(os.path.join(VERIF, 'MANIFEST.json'), 'w') as f:
     json.dump(manifest, f, indent=1)
